@@ -55,6 +55,42 @@ def ident_like(t, depth=0):
     return False
 
 
+def check_empty_match(cx, facts, fn, sites, rep):
+    """TPL-EMPTY-MATCH: `match self { #arms }` whose arms are accumulated per variant has no arm for an enum without variants, and a
+    match on a reference with no arms does not compile (E0004): the emission must be guarded by a non-emptiness test, or the handler
+    must refuse such an enum."""
+    from ..tmpl import sole_match_brace_holes
+    fw = cx.fw(fn)
+    refusal = None
+    for s in sites:
+        if s.ast is None:
+            continue
+        hs = sole_match_brace_holes(s.tmpl.tokens)
+        if not hs:
+            continue
+        accs = [h for h in hs if cx.gm.hole_class(s.tmpl, h) == 'acc']
+        if not accs:
+            continue
+        at = facts.atoms(facts.effective_ctx(s.ctx, fw), fw) + facts.atoms(s.tmpl.ctx, fw)
+        guarded = any(a[0] == 'empty' and a[2] is False for a in at)
+        if not guarded:
+            if refusal is None:
+                refusal = False
+                for ev in fw.events:
+                    if ev.kind == 'exit' and ev.how == 'return' and ev.value is not None and es(ev.value).startswith('Err('):
+                        ea = [a for a in facts.atoms(ev.ctx, fw) if a[0] not in ('data', 'cfg')]
+                        if len(ea) == 1 and ea[0][0] == 'empty' and ea[0][2] is True:
+                            refusal = True
+            guarded = refusal
+        inst = 'match{#%s}' % ','.join(sorted(accs))
+        if guarded:
+            rep.ok('TPL-EMPTY-MATCH', '%s|%s|%s' % (fn.qname, inst, s.tmpl.line))
+        else:
+            rep.bad('TPL-EMPTY-MATCH', fn.qname, inst,
+                    'a `match` whose arms are accumulated per variant is emitted without a non-emptiness guard: for an enum without variants it is `match self {}` on a reference, which does not compile (E0004)',
+                    s.tmpl.file, s.tmpl.line)
+
+
 def run(cx, tier='quick'):
     rep = Report('C01')
     rep.explanation.append(
@@ -88,6 +124,7 @@ def run(cx, tier='quick'):
             check_opt(cx, facts, fn, s, rep)
             check_arity(cx, fn, s, rep)
         check_scope(cx, facts, fn, sites, rep)
+        check_empty_match(cx, facts, fn, sites, rep)
     rep.extra['sites'] = total
     rep.extra['templates_total'] = len(cx.gm.templates)
     rep.extra['templates_reached'] = len(visited)
@@ -106,6 +143,7 @@ def run(cx, tier='quick'):
     rep.floor('TPL-PARSE', 200, '(276 templates today)')
     rep.floor('TPL-OPT', 3, '(4 optional-hole positions today; let-bound sub-templates are inlined into their parent template)')
     rep.floor('TPL-ARITY', 40)
+    rep.floor('TPL-EMPTY-MATCH', 8, '(12 accumulated-arm matches today)')
     rep.floor('GEN-SCOPE', 40)
     from . import c12
     c12.check_headers(cx, rep)
@@ -133,6 +171,34 @@ def run(cx, tier='quick'):
         if r_ in ('BND', 'BOUND-USE'):
             rep.checked.append((r_, i_, v_))
             rep.counts[r_] = rep.counts.get(r_, 0) + 1
+    # names: a clash between a template-fixed generic / binder and the user's names does not compile (GEN-CLASH, TPL-ABS, .. of C19);
+    # a panic is neither a diagnostic nor compiling code (PANIC census of C17, without the MIR cross-check)
+    from . import c19 as _c19, c17 as _c17
+    from ..callgraph import CallGraph as _CG
+    from ..metafacts import MetaFacts as _MF
+    subn = _Report('C01')
+    for fn_ in cx.handler_fns():
+        try:
+            _c19.analyse_tree(cx, fn_, subn)
+        except Exception as e_:
+            subn.bad('UNANALYSABLE', fn_.qname, 'name-rules', 'name-resolution rules could not be evaluated: %r' % (e_,), fn_.file, fn_.line)
+    cg_ = _CG(cx)
+    dis_ = _c17.Discharger(cx, cg_, _MF(cx, cg_))
+    for s_ in _c17.census(cx, list(cx.crate.fns)):
+        if s_.kind == 'loop':
+            continue
+        r_ = dis_.discharge(s_)
+        inst_ = '%s=%s' % (s_.kind, s_.what)
+        if r_:
+            subn.ok('PANIC', '%s|%s|%s' % (s_.where, inst_, _c17.ctx_hash(s_)))
+        else:
+            subn.bad('PANIC', s_.where, inst_, 'panic-capable site with no discharge proof: `%s`' % s_.what, s_.fw.fn.file, s_.ev.line)
+    for fnd in subn.findings:
+        if not any(x.key == fnd.key for x in rep.findings):
+            rep.findings.append(fnd)
+    for r_, i_, v_ in subn.checked:
+        rep.checked.append((r_, i_, v_))
+        rep.counts[r_] = rep.counts.get(r_, 0) + 1
     return rep
 
 
